@@ -699,6 +699,35 @@ func runPartition(c *core.Ctx) {
 	})
 
 	// U: real install + uninstall on the simulated cluster (create / delete requests as the server saw them)
+	// K: several kinds that are in neither kind table, interleaved within and across files: every kind must
+	// come out as one contiguous run (unknown kinds after all known kinds, original order within a kind)
+	part("K", func() {
+		maxDocs := 5
+		if thorough {
+			maxDocs = 7
+		}
+		eachFile("templates/a.yaml", []int{dCM, dWidget, dGadget}, 1, maxDocs, []int{jPlain}, no, no, no, func(f fileSpec) {
+			e.do(pcase{Files: []fileSpec{f}})
+		})
+		two := []int{dWidget, dGadget, dCM, dSvc}
+		as := fileVariants("templates/a.yaml", two, 1, 2, []int{jPlain}, no, no, no)
+		bs := fileVariants("templates/b.yaml", two, 1, 2, []int{jPlain}, no, no, no)
+		for _, a := range as {
+			for _, b := range bs {
+				e.do(pcase{Files: []fileSpec{a, b}})
+			}
+		}
+		wg := []int{dWidget, dGadget}
+		for _, a := range fileVariants("templates/a.yaml", wg, 1, 2, []int{jPlain}, no, no, no) {
+			for _, b := range fileVariants("templates/b.yaml", wg, 1, 2, []int{jPlain}, no, no, no) {
+				for _, cc := range fileVariants("templates/sub/c.yaml", wg, 1, 2, []int{jPlain}, no, no, no) {
+					e.do(pcase{Files: []fileSpec{a, b, cc}})
+				}
+			}
+		}
+		c.Bound("partition.K", fmt.Sprintf("two kinds outside the kind tables: 1 file x 1..%d docs over {ConfigMap,Widget,Gadget}; 2 files x 1..2 docs over {Widget,Gadget,ConfigMap,Service}; 3 files x 1..2 docs over {Widget,Gadget}", maxDocs))
+	})
+
 	// H: the hook-annotation alphabet, including a hook annotation that is present but names nothing
 	// (exactly empty, null, whitespace only): such a document names no known event and is dropped
 	part("H", func() {
@@ -799,6 +828,15 @@ func runPartition(c *core.Ctx) {
 			}
 		}
 		e.do(pcase{Files: []fileSpec{as[0]}, Notes: true, Helpers: true, SubOn: true, SubNotes: true, Sub: []fileSpec{{Name: "templates/x.yaml", Docs: []int{dSvc}}}, Real: true})
+		// two kinds outside the kind tables, interleaved within one file and across two files
+		eachFile("templates/a.yaml", []int{dWidget, dGadget, dCM}, 2, 4, []int{jPlain}, no, no, no, func(f fileSpec) {
+			e.do(pcase{Files: []fileSpec{f}, Real: true})
+		})
+		for _, a := range fileVariants("templates/a.yaml", []int{dWidget, dGadget}, 1, 2, []int{jPlain}, no, no, no) {
+			for _, b := range fileVariants("templates/b.yaml", []int{dWidget, dGadget}, 1, 2, []int{jPlain}, no, no, no) {
+				e.do(pcase{Files: []fileSpec{a, b}, Real: true})
+			}
+		}
 		// NOTES.txt at every location with every content, one at a time and all locations together
 		for _, body := range []string{"prose", "steps", "resource", "hook"} {
 			var all []notesSpec
